@@ -78,6 +78,7 @@ SumBound      == SpanSeq(out) <= FamCovered(fam)
 (* at termination *)
 NonEmptyOut   == (Done /\ FamBig(fam) # {}) => out # <<>>          \* median() of the lengths never sees an empty list
 WholeWhenFree == Done => \A i \in FamBig(fam) : FamFree(fam, i) => \E o \in Rng(out) : o.vs = fam[i]
+CutOnlyWhereOverlapping == Done => KeptTogether(fam, { o.vs : o \in Rng(out) })
 (* every step consumes: the loop terminates *)
 RECURSIVE CardSeq(_)
 CardSeq(s) == IF s = <<>> THEN 0 ELSE Cardinality(Head(s).vs) + CardSeq(Tail(s))
